@@ -180,8 +180,8 @@ Fixpoint commonpath (a b : path) : path :=
   | _, _ => []
   end.
 
-(* BidsFile: file_path = (b_dir, b_name); b_raw = the parsed JSON of the file
-   (None: not parseable as JSON; irrelevant for .tsv files) *)
+(* BidsFile: file_path = (b_dir, b_name); b_raw = the parsed JSON object of the file
+   (None: not parseable as JSON or not an object; irrelevant for .tsv files) *)
 Record bfile := mkB {
   b_dir : path;
   b_name : str;
@@ -282,7 +282,8 @@ Fixpoint chain_aux (sc : list bfile) (obj : bfile) (cur : path) (rest : path) : 
 Definition get_sidecars_from_path (sc : list bfile) (obj : bfile) : list bfile :=
   chain_aux sc obj [] (b_dir obj).
 
-(* Sidecar.load_sidecar_file: unparseable JSON raises HedFileError *)
+(* Sidecar.load_sidecar_file / the isinstance check in load_sidecar_files: a file that is not
+   parseable JSON, or whose JSON document is not an object, raises HedFileError (b_raw = None) *)
 Definition load_sidecar_file (f : bfile) : res jdict :=
   match b_raw f with
   | Some d => Ok d
@@ -309,12 +310,20 @@ Fixpoint lookup_contents (s : bfile) (conts : list (bfile * jdict)) : res jdict 
   | (s', d) :: r => if same_file s s' then Ok d else lookup_contents s r
   end.
 
-(* the second loop of BidsFileGroup.__init__ for one data file:
-   sidecar_list = get_sidecars_from_path(obj); obj.sidecar = sidecar_dict[sidecar_list[-1]] *)
-Definition data_sidecar (sc : list bfile) (conts : list (bfile * jdict)) (obj : bfile)
+(* the second loop of BidsFileGroup.__init__ for one data file.
+   fixed = false (the code before the fix: commit, kept as the record of finding C16-F1):
+     sidecar_list = get_sidecars_from_path(obj); obj.sidecar = sidecar_dict[sidecar_list[-1]]
+   fixed = true (the code as it is now):
+     merged = BidsSidecarFile(sidecar_list[-1]); merged.set_contents(content_info=sidecar_list);
+     obj.sidecar = merged *)
+Definition data_sidecar (fixed : bool) (sc : list bfile) (conts : list (bfile * jdict)) (obj : bfile)
   : res (option jdict) :=
   let sidecar_list := get_sidecars_from_path sc obj in
   if is_empty sidecar_list then Ok None
+  else if fixed then
+    let deepest := last sidecar_list obj in
+    let* merged := mk_bfile (b_dir deepest) (b_name deepest) (b_raw deepest) in
+    let* d := set_contents merged sidecar_list in Ok (Some d)
   else let* d := lookup_contents (last sidecar_list obj) conts in Ok (Some d).
 
 Record group := mkG {
@@ -324,13 +333,13 @@ Record group := mkG {
 }.
 
 (* BidsFileGroup.__init__(root, suffix, "tabular", exclude_dirs) *)
-Definition group_init (excl : list str) (sfx : str) (t : tree) : res group :=
+Definition group_init (fixed : bool) (excl : list str) (sfx : str) (t : tree) : res group :=
   let* sc := mapM (fun e => mk_bfile (fst e) (fst (snd e)) (snd (snd e)))
                   (get_file_list excl sfx ext_json t) in
   let* conts := mapM (fun s => let* d := set_contents s (get_sidecars_from_path sc s) in Ok (s, d)) sc in
   let* dfs := mapM (fun e => mk_bfile (fst e) (fst (snd e)) None)
                    (get_file_list excl sfx ext_tsv t) in
-  let* data := mapM (fun f => let* m := data_sidecar sc conts f in Ok (f, m)) dfs in
+  let* data := mapM (fun f => let* m := data_sidecar fixed sc conts f in Ok (f, m)) dfs in
   Ok (mkG sc conts data).
 
 (* ------------------------------------------------------------------ validation driver *)
